@@ -245,7 +245,13 @@ func deepCopy(v value, seen map[*value]*value) value {
 		for i, e := range x.vals {
 			n[i] = deepCopy(e, seen)
 		}
-		return &tab{x.v, n}
+		// a cached table refers to the choice variable object of the path that computed it:
+		// re-bind it to the current path's variable with the same id
+		v := x.v
+		if rs != nil && v.id < len(rs.vars) {
+			v = rs.vars[v.id]
+		}
+		return &tab{v, n}
 	case *union:
 		n := make([]alt, len(x.alts))
 		for i, a := range x.alts {
